@@ -1,0 +1,32 @@
+//go:build verif
+
+// Machine-checked contracts for the code that package httpgen EMITS (the constant templates of
+// *_http_binding.pb.go and *_http_config.pb.go). /verif/govc extracts the emitted functions by running
+// the working-tree plugin on every run and verifies them, as Go, against the `emitted func` contracts
+// below. This file declares nothing and is compiled only under the verif build tag.
+
+package httpgen
+
+//@ emitted func filterFlags(content string) (r string)
+//@   pure
+//@   ensures prefix: r == substr(content, 0, len(r)) && len(r) <= len(content)
+//@   ensures clean: forall k int :: 0 <= k && k < len(r) ==> charAt(content, k) != 32 && charAt(content, k) != 59
+//@   ensures stops: len(r) < len(content) ==> charAt(content, len(r)) == 32 || charAt(content, len(r)) == 59
+//@   loop 1 invariant forall k int :: 0 <= k && k < _i ==> charAt(content, k) != 32 && charAt(content, k) != 59
+
+//@ emitted func defaultErrorStatusCode(err error) (code int)
+//@   pure
+//@   ensures code == 400 || code == 500
+//@   ensures isType(err, *sebufhttp.ValidationError) ==> code == 400
+
+//@ emitted func convertStringToFieldValue(value string, kind protoreflect.Kind) (val protoreflect.Value, err error)
+//@   pure
+//@   ensures string: kind == protoreflect.StringKind ==> err == nil && val == protoreflect.ValueOfString(value)
+//@   ensures int32: kind == protoreflect.Int32Kind || kind == protoreflect.Sint32Kind || kind == protoreflect.Sfixed32Kind ==> ((err == nil) <==> (result1(strconv.ParseInt(value, 10, 32)) == nil)) && (err == nil ==> val == protoreflect.ValueOfInt32(int32(result0(strconv.ParseInt(value, 10, 32)))))
+//@   ensures int64: kind == protoreflect.Int64Kind || kind == protoreflect.Sint64Kind || kind == protoreflect.Sfixed64Kind ==> ((err == nil) <==> (result1(strconv.ParseInt(value, 10, 64)) == nil)) && (err == nil ==> val == protoreflect.ValueOfInt64(result0(strconv.ParseInt(value, 10, 64))))
+//@   ensures uint32: kind == protoreflect.Uint32Kind || kind == protoreflect.Fixed32Kind ==> ((err == nil) <==> (result1(strconv.ParseUint(value, 10, 32)) == nil)) && (err == nil ==> val == protoreflect.ValueOfUint32(uint32(result0(strconv.ParseUint(value, 10, 32)))))
+//@   ensures uint64: kind == protoreflect.Uint64Kind || kind == protoreflect.Fixed64Kind ==> ((err == nil) <==> (result1(strconv.ParseUint(value, 10, 64)) == nil)) && (err == nil ==> val == protoreflect.ValueOfUint64(result0(strconv.ParseUint(value, 10, 64))))
+//@   ensures bool: kind == protoreflect.BoolKind ==> ((err == nil) <==> (result1(strconv.ParseBool(value)) == nil)) && (err == nil ==> val == protoreflect.ValueOfBool(result0(strconv.ParseBool(value))))
+//@   ensures float: kind == protoreflect.FloatKind ==> ((err == nil) <==> (result1(strconv.ParseFloat(value, 32)) == nil)) && (err == nil ==> val == protoreflect.ValueOfFloat32(float32(result0(strconv.ParseFloat(value, 32)))))
+//@   ensures double: kind == protoreflect.DoubleKind ==> ((err == nil) <==> (result1(strconv.ParseFloat(value, 64)) == nil)) && (err == nil ==> val == protoreflect.ValueOfFloat64(result0(strconv.ParseFloat(value, 64))))
+//@   ensures other: kind == protoreflect.EnumKind || kind == protoreflect.BytesKind || kind == protoreflect.MessageKind || kind == protoreflect.GroupKind ==> err != nil
